@@ -77,6 +77,19 @@ func gen(t *rapid.T) Case {
 	}
 	n := rapid.IntRange(1, max).Draw(t, "nOps")
 	var c Case
+	if rapid.IntRange(0, 3).Draw(t, "recycledName") == 0 {
+		// a name is used, gets history, is deleted — and is then reused as the
+		// target of a rename (or of a create) of another DAG with history
+		a := rapid.IntRange(0, len(names)-1).Draw(t, "nameA")
+		b := (a + 1 + rapid.IntRange(0, len(names)-2).Draw(t, "nameB")) % len(names)
+		c.Ops = append(c.Ops, Op{Kind: "create", Name: a}, Op{Kind: "run", Name: a}, Op{Kind: "delete", Name: a},
+			Op{Kind: "create", Name: b}, Op{Kind: "run", Name: b})
+		if rapid.Bool().Draw(t, "viaRename") {
+			c.Ops = append(c.Ops, Op{Kind: "rename", Name: b, To: a})
+		} else {
+			c.Ops = append(c.Ops, Op{Kind: "create", Name: a}, Op{Kind: "run", Name: a})
+		}
+	}
 	for i := 0; i < n; i++ {
 		c.Ops = append(c.Ops, Op{
 			Kind: rapid.SampledFrom([]string{"create", "create", "create", "save", "save", "rename", "rename", "delete", "run", "run"}).Draw(t, "kind"),
